@@ -127,13 +127,14 @@ theorem hFlushCore_head_written (rq : Req) (b : C02.St) (x : List Bytes) (hw : b
 /-- the first flush (either kind) establishes the Content-Encoding link -/
 theorem HI_first (gz : Gz) (rq : Req) (s : St) (fin : Bool) (hi : HI s) (hw : s.base.headersWritten = false)
     (hopen : s.t.fileClosed = false) (h0 : s.base.conn.head = none) (hok : HOK s.base.hdrs)
+    (hv : clValid s.base.hdrs = true)
     (hw' : (hFlush gz rq s fin).1.base.headersWritten = true)
     (hhead : ∃ code hs, (hFlush gz rq s fin).1.base.conn.head = some (code, hs)) :
     HI (hFlush gz rq s fin).1 := by
   refine ⟨fun h => (by rw [hw'] at h; cases h), fun _ => ?_⟩
   obtain ⟨code, hs, hh⟩ := hhead
   refine ⟨code, hs, hh, ?_⟩
-  rw [hFlush_unwritten gz rq s fin hw] at hh ⊢
+  rw [hFlush_unwritten gz rq s fin hw hv] at hh ⊢
   rcases transformFirst_cases gz s.t s.base.status s.base.hdrs s.base.buf.flatten fin hopen with e | e
   · rw [e] at hh ⊢
     simp only [] at hh ⊢
@@ -243,11 +244,19 @@ theorem hFlushCore_hw (rq : Req) (b : C02.St) : (hFlushCore rq b).1.headersWritt
     · rfl
     · rfl
 
-theorem hFlush_hw29 (gz : Gz) (rq : Req) (s : St) (fin : Bool) (hopen : s.t.fileClosed = false) :
+theorem hFlush_hw29 (gz : Gz) (rq : Req) (s : St) (fin : Bool) (hopen : s.t.fileClosed = false)
+    (hv : s.base.headersWritten = false → clValid s.base.hdrs = true) :
     (hFlush gz rq s fin).1.base.headersWritten = true := by
   by_cases hw : s.base.headersWritten = true
   · rw [hFlush_written gz rq s fin hw _ _ (transformChunk_open gz s.t _ fin hopen)]; exact hFlushCore_hw rq _
-  · rw [hFlush_unwritten gz rq s fin (by simpa using hw)]; exact hFlushCore_hw rq _
+  · have hw' : s.base.headersWritten = false := by simpa using hw
+    rw [hFlush_unwritten gz rq s fin hw' (hv hw')]; exact hFlushCore_hw rq _
+
+theorem clValid_auto (h : HMap) (n : Nat) (hcl : dget nCL h = some [toDec n]) : clValid h = true := by
+  unfold clValid hget
+  rw [norm_nCL, hcl]
+  simp only [C06.joinWith, parseDec_toDec]
+  simp
 
 /-- `finish(b)` in a clean run keeps / establishes the Content-Encoding link -/
 theorem HI_finish (gz : Gz) (rq : Req) (hrq : reqOK rq = true) (hm : (rq.method == Method.head) = false)
@@ -291,10 +300,26 @@ theorem HI_finish (gz : Gz) (rq : Req) (hrq : reqOK rq = true) (hm : (rq.method 
         ⟨fun _ => finishPrep_nce rq _ (by rw [hst]; exact ci.nb) hinm (by rw [hhd]; exact hi.nce hw'),
          fun h => absurd (show (finishPrep rq (addBuf s.base b)).1.headersWritten = true from h)
            (bool_ne_of_eq_false q2.2.2.2.1)⟩
+      have hcv : clValid (finishPrep rq (addBuf s.base b)).1.hdrs = true := clValid_auto _ _ q6
       exact HI_first gz rq { s with base := (finishPrep rq (addBuf s.base b)).1 } true hi1 q2.2.2.2.1 ti.open_
-        q2.2.2.2.2.1.2.2.2.2 q2.2.2.2.2.2 (hFlush_hw29 gz rq _ true ti.open_) ⟨_, hs, r7⟩
-  have hqw : (hFlush gz rq { s with base := p.1 } true).1.base.headersWritten = true :=
-    hFlush_hw29 gz rq _ true ti.open_
+        q2.2.2.2.2.1.2.2.2.2 q2.2.2.2.2.2 hcv (hFlush_hw29 gz rq _ true ti.open_ (fun _ => hcv)) ⟨_, hs, r7⟩
+  have hqw : (hFlush gz rq { s with base := p.1 } true).1.base.headersWritten = true := by
+    refine hFlush_hw29 gz rq { s with base := p.1 } true ti.open_ (fun hu => ?_)
+    replace hu : p.1.headersWritten = false := hu
+    show clValid p.1.hdrs = true
+    have hw' : s.base.headersWritten = false := by
+      by_cases hw : s.base.headersWritten = true
+      · have hw0 : (addBuf s.base b).headersWritten = true := hhw.trans hw
+        have : p = (addBuf s.base b, false) := by rw [hp]; simp [hw0]
+        rw [this] at hu
+        exact absurd (show (addBuf s.base b).headersWritten = true from hw0) (bool_ne_of_eq_false hu)
+      · simpa using hw
+    have hw0 : (addBuf s.base b).headersWritten = false := hhw.trans hw'
+    have : p = finishPrep rq (addBuf s.base b) := by rw [hp]; simp [hw0]
+    rw [this]
+    obtain ⟨_, _, _, _, _, q6⟩ := finishPrep_clean rq hrq hinm (addBuf s.base b) (Pre_of_WF rq _ w0 hw0)
+      (by rw [hst]; exact ci.nb) (by rw [hhd]; exact ci.ncl hw')
+    exact clValid_auto _ _ q6
   rw [hFinish_stages29 gz rq s b ci.wf.fin p hp] at f1 ⊢
   by_cases c1 : p.2 = true
   · rw [if_pos c1] at f1; cases f1
@@ -356,9 +381,10 @@ theorem runOps_HI (gz : Gz) (rq : Req) (hrq : reqOK rq = true) (hm : (rq.method 
           · exact HI_later gz rq s false hi hw ti.open_
           · have hw' : s.base.headersWritten = false := by simpa using hw
             obtain ⟨fr, hok⟩ := ci.wf.pre hw'
-            have hww := hFlush_hw29 gz rq s false ti.open_
+            have hcv := clValid_absent _ (ci.ncl hw')
+            have hww := hFlush_hw29 gz rq s false ti.open_ (fun _ => hcv)
             obtain ⟨_, _, hs, hh⟩ := g2.live hww
-            exact HI_first gz rq s false hi hw' ti.open_ fr.2.2.2.2 hok hww ⟨_, hs, hh⟩
+            exact HI_first gz rq s false hi hw' ti.open_ fr.2.2.2.2 hok hcv hww ⟨_, hs, hh⟩
         · exact HI_other gz rq s op hi hclean hfl hnf
       exact ih (step gz rq s op).1 K' g2 g3 hi' (fun o ho => hops o (by simp [ho]))
 
